@@ -346,4 +346,116 @@ theorem scan_multiset_ScanPrimitives_LineStrip {α : Type} (data : Int → α) (
     s.Perm (seqEvents data n) :=
   scan_any_schedule std_ScanPrimitives_LineStrip (fun _ => rfl) data n size hs s hsched
 
+
+/-! ## Part 3 — block jobs (marching canvas)
+
+About the expressions regenerated from modeling/marching/canvas.go (`Gen/Partition.lean`, namespace `Canvas`).
+`lo`, `hi` are the padded domain bounds of one axis (`fieldBounds`), `c` a block coordinate. -/
+
+private theorem fdiv100 (x : Int) : Int.fdiv x 100 = x / 100 := Int.fdiv_eq_ediv_of_nonneg x (by decide)
+
+/-- **blocks_disjoint** for `AddField`: on each axis the per-block sample ranges (block bounds clamped to the padded domain)
+    partition the padded domain — every sample belongs to the range of exactly one enumerated block (its own), ranges of
+    different blocks are disjoint, and block-local coordinates are valid cell coordinates.  For all domains. -/
+theorem blocks_disjoint_AddField :
+    AxisPartition Canvas.chunkOfX Canvas.AddField.startX Canvas.AddField.endX ∧
+    AxisPartition Canvas.chunkOfY Canvas.AddField.startY Canvas.AddField.endY ∧
+    AxisPartition Canvas.chunkOfZ Canvas.AddField.startZ Canvas.AddField.endZ := by
+  refine ⟨?_, ?_, ?_⟩ <;>
+  · apply axisPartition_std
+    · intro x; first | exact fdiv100 x
+    · intro c lo hi; rfl
+    · intro c lo hi; rfl
+
+/-- **blocks_disjoint** for `AddFieldParallel`: on each axis the per-block sample ranges (block bounds clamped to the padded domain)
+    partition the padded domain — every sample belongs to the range of exactly one enumerated block (its own), ranges of
+    different blocks are disjoint, and block-local coordinates are valid cell coordinates.  For all domains. -/
+theorem blocks_disjoint_AddFieldParallel :
+    AxisPartition Canvas.chunkOfX Canvas.AddFieldParallel.startX Canvas.AddFieldParallel.endX ∧
+    AxisPartition Canvas.chunkOfY Canvas.AddFieldParallel.startY Canvas.AddFieldParallel.endY ∧
+    AxisPartition Canvas.chunkOfZ Canvas.AddFieldParallel.startZ Canvas.AddFieldParallel.endZ := by
+  refine ⟨?_, ?_, ?_⟩ <;>
+  · apply axisPartition_std
+    · intro x; first | exact fdiv100 x
+    · intro c lo hi; rfl
+    · intro c lo hi; rfl
+
+/-- **blocks_disjoint** for `AddFieldParallel2`: on each axis the per-block sample ranges (block bounds clamped to the padded domain)
+    partition the padded domain — every sample belongs to the range of exactly one enumerated block (its own), ranges of
+    different blocks are disjoint, and block-local coordinates are valid cell coordinates.  For all domains. -/
+theorem blocks_disjoint_AddFieldParallel2 :
+    AxisPartition Canvas.chunkOfX Canvas.AddFieldParallel2.startX Canvas.AddFieldParallel2.endX ∧
+    AxisPartition Canvas.chunkOfY Canvas.AddFieldParallel2.startY Canvas.AddFieldParallel2.endY ∧
+    AxisPartition Canvas.chunkOfZ Canvas.AddFieldParallel2.startZ Canvas.AddFieldParallel2.endZ := by
+  refine ⟨?_, ?_, ?_⟩ <;>
+  · apply axisPartition_std
+    · intro x; first | exact fdiv100 x
+    · intro c lo hi; rfl
+    · intro c lo hi; rfl
+
+example : Canvas.AddField.startX (-2) (-137) 212 = -137 ∧ Canvas.AddField.endX (-2) (-137) 212 = -100 ∧
+    Canvas.AddField.startX 2 (-137) 212 = 200 ∧ Canvas.AddField.endX 2 (-137) 212 = 212 := by decide
+
+/-- `chunkSectionsInRange` enumerates, per axis, exactly the blocks `chunkOf lo … chunkOf hi` -/
+theorem chunks_enumerated (lo hi : Int) (h : lo ≤ hi) :
+    (intRange 0 (Canvas.chunkCountX lo hi)).map (Canvas.chunkAtX lo hi) = intRange lo (hi + 1) ∧
+    (intRange 0 (Canvas.chunkCountY lo hi)).map (Canvas.chunkAtY lo hi) = intRange lo (hi + 1) ∧
+    (intRange 0 (Canvas.chunkCountZ lo hi)).map (Canvas.chunkAtZ lo hi) = intRange lo (hi + 1) := by
+  have key : (intRange 0 (hi - lo + 1)).map (fun k => lo + k) = intRange lo (hi + 1) := by
+    unfold intRange
+    rw [List.map_map]
+    have : (hi - lo + 1 - 0).toNat = (hi + 1 - lo).toNat := by omega
+    rw [this]
+    apply List.map_congr_left
+    intro k _
+    simp
+  exact ⟨key, key, key⟩
+
+/-- cells of one block: `index` is injective on valid cell coordinates and stays inside the block array (100³ cells) -/
+theorem index_injective (x y z x' y' z' : Int)
+    (hx : 0 ≤ x ∧ x < 100) (hy : 0 ≤ y ∧ y < 100) (hz : 0 ≤ z ∧ z < 100)
+    (hx' : 0 ≤ x' ∧ x' < 100) (hy' : 0 ≤ y' ∧ y' < 100) (_hz' : 0 ≤ z' ∧ z' < 100) :
+    (0 ≤ Canvas.index x y z ∧ Canvas.index x y z < 100 * 100 * 100) ∧
+    (Canvas.index x y z = Canvas.index x' y' z' → x = x' ∧ y = y' ∧ z = z') := by
+  simp only [Canvas.index]
+  constructor
+  · omega
+  · intro h; omega
+
+/-- block workers: all three loop over exactly `[start, end)` per axis; the cell written is the block-local coordinate
+    `x - 100·c`; `calcFloat1Range` fills its linear buffer in the nesting order in which `AddFieldParallel2` reads it back;
+    and both sample the field at `(x, y, z)` in this argument order (the `(z, y, x)` defect of e720d2f breaks this) -/
+theorem block_workers_agree :
+    (∀ lo hi, Canvas.addFloat1Range.loopLoX lo hi = lo ∧ Canvas.addFloat1Range.loopHiX lo hi = hi ∧
+              Canvas.addFloat1Range.loopLoY lo hi = lo ∧ Canvas.addFloat1Range.loopHiY lo hi = hi ∧
+              Canvas.addFloat1Range.loopLoZ lo hi = lo ∧ Canvas.addFloat1Range.loopHiZ lo hi = hi) ∧
+    (∀ lo hi, Canvas.calcFloat1Range.loopLoX lo hi = lo ∧ Canvas.calcFloat1Range.loopHiX lo hi = hi ∧
+              Canvas.calcFloat1Range.loopLoY lo hi = lo ∧ Canvas.calcFloat1Range.loopHiY lo hi = hi ∧
+              Canvas.calcFloat1Range.loopLoZ lo hi = lo ∧ Canvas.calcFloat1Range.loopHiZ lo hi = hi) ∧
+    (∀ lo hi, Canvas.AddFieldParallel2.merge.loopLoX lo hi = lo ∧ Canvas.AddFieldParallel2.merge.loopHiX lo hi = hi ∧
+              Canvas.AddFieldParallel2.merge.loopLoY lo hi = lo ∧ Canvas.AddFieldParallel2.merge.loopHiY lo hi = hi ∧
+              Canvas.AddFieldParallel2.merge.loopLoZ lo hi = lo ∧ Canvas.AddFieldParallel2.merge.loopHiZ lo hi = hi) ∧
+    (∀ x c, Canvas.addFloat1Range.localX x c = x - c * 100 ∧ Canvas.addFloat1Range.localY x c = x - c * 100 ∧
+            Canvas.addFloat1Range.localZ x c = x - c * 100 ∧ Canvas.AddFieldParallel2.merge.localX x c = x - c * 100 ∧
+            Canvas.AddFieldParallel2.merge.localY x c = x - c * 100 ∧ Canvas.AddFieldParallel2.merge.localZ x c = x - c * 100) ∧
+    Canvas.calcFloat1Range.nesting = Canvas.AddFieldParallel2.merge.nesting ∧
+    Canvas.addFloat1Range.sampleArgs = ["x", "y", "z"] ∧ Canvas.calcFloat1Range.sampleArgs = ["x", "y", "z"] := by
+  refine ⟨fun _ _ => ⟨rfl, rfl, rfl, rfl, rfl, rfl⟩, fun _ _ => ⟨rfl, rfl, rfl, rfl, rfl, rfl⟩,
+    fun _ _ => ⟨rfl, rfl, rfl, rfl, rfl, rfl⟩, fun _ _ => ⟨rfl, rfl, rfl, rfl, rfl, rfl⟩, by decide, by decide, by decide⟩
+
+/-- **append_perm_tris** — `marchFloat1Parallel` appends the block meshes in completion order, `marchFloat1` in map-iteration
+    order: whatever the order, the merged mesh has the same multiset of triangles-as-corner-positions (every block mesh
+    well-formed).  Marching parallel = sequential as triangle multisets, for any number of blocks and any arrival order. -/
+theorem append_perm_tris {V : Type} (l₁ l₂ : List (TMesh V)) (hp : l₁.Perm l₂) (hwf : ∀ m ∈ l₁, m.WF) :
+    (TMesh.mergeAll l₁).corners.Perm (TMesh.mergeAll l₂).corners := by
+  rw [TMesh.corners_mergeAll l₁ hwf, TMesh.corners_mergeAll l₂ (fun m hm => hwf m (hp.mem_iff.mpr hm))]
+  exact (hp.map TMesh.corners).flatten
+
+example : (TMesh.mk ['a', 'b', 'c'] [(0, 1, 2)]).WF := by
+  intro t ht; simp at ht; subst ht; decide
+
+/-- the merged mesh is exactly the concatenation of the blocks' triangles (no triangle lost, none invented, none altered) -/
+theorem merge_keeps_all_tris {V : Type} (l : List (TMesh V)) (hwf : ∀ m ∈ l, m.WF) :
+    (TMesh.mergeAll l).corners = (l.map TMesh.corners).flatten := TMesh.corners_mergeAll l hwf
+
 end PolyVerif.C10
